@@ -9,3 +9,5 @@ import CC.Thm.C07
 #print axioms CC.Thm.C07.final_count_exact
 #print axioms CC.Groestl.spec_256_empty
 #print axioms CC.Groestl.spec_512_empty
+#print axioms CC.Thm.C07.source_kernels_match
+#print axioms CC.Thm.C07.source_literals_match
